@@ -10,3 +10,6 @@ const Enabled = false
 
 // Event does nothing without the verif build tag.
 func Event(point string, id uint32, kv ...int64) {}
+
+// B converts a flag to an event argument.
+func B(b bool) int64 { return 0 }
